@@ -597,12 +597,16 @@ def expect_csv(box, names_sel, span, frequency_span, desc_w, desc_r, round_, sta
     else:
         fspan = {f: Ellipsis for f in FREQS}
     exp = {}
+    # a file that holds at least one dated observation can be read back; the series without a start period sit in a block of
+    # their own (names, variants, descriptions, no dates) and come back as empty series under their names
+    dated = span is None and frequency_span is None and any(
+        is_series(box[n_]) and box[n_].freq is not None and box[n_].cells for n_ in selected)
     for n in selected:
         x = box[n]
         if not is_series(x):
             continue                        # non-series items are not exported
         if x.freq is None:
-            exp[n] = [ABSENT, _csv_series(x, None, desc_w, round_)]
+            exp[n] = [_csv_series(x, None, desc_w, round_)] if dated else [ABSENT, _csv_series(x, None, desc_w, round_)]
             hazard = "series-without-start-period-exported"
             continue
         if x.freq not in fspan:
